@@ -6,7 +6,7 @@ SPEC = {
         "shims": {"domainproxy": "internal/httpservice/modules/domainproxy", "httpservice": "internal/httpservice"},
         "runs": [{"args": [], "corpus": ""}],
     },
-    "skip_model_prefix": ["c19r"],
+    "skip_model_prefix": ["c19r", "c19u"],
     "level_text": ("Lean 4 theorem C19_main: for every set of client threads, every history of create / delete / update / lookup operations, "
                    "every registry / cloud table and every schedule of storage steps, the observation of the executable interleaving model of "
                    "CreateMapping / DeleteMapping / UpdateMapping / lookupMapping (one model step per storage call) satisfies `holds` — the "
@@ -27,7 +27,8 @@ SPEC = {
              "(fault gate in the store wrapper), random programs with random schedules; DomainRegistry: sequential Register/Unregister/LookupByHost "
              "histories compared with the model, and simultaneous Register calls of 2-8 claimants for one unclaimed name released by a barrier "
              "(half of the rounds: the registry's own write lock held through a verif-only shim, so all claimants sit at their first lock "
-             "acquisition and start together), each round judged by holdsReg; registry Rebuild / UnregisterByMappingID / IsSubdomainAvailable in the "
+             "acquisition and start together), each round judged by holdsReg; a retried UnregisterByMappingID of the old mapping overlapping a "
+             "re-claim of the name (c19u: two unregisters + one Register behind the same barrier, then lookup / third claimant / lookup); registry Rebuild / UnregisterByMappingID / IsSubdomainAvailable in the "
              "sequential histories; entry-point histories (c19h): the real HTTPDomainCreateHandler / HTTPDomainDeleteHandler + repository adapter "
              "(identity from ctx.ClientID), CleanupExpiredMappings, ListAllMappings, GetMappingsByClientID, IsSubdomainAvailable and "
              "DomainProxyModule.ServeHTTP with a recording session manager, two repository instances over one store, compared with the "
